@@ -1,4 +1,4 @@
 import MpfVerif.DriverLoop
 import MpfVerif.Model.Switch
-/-! Driver of the C03 model (switch controller, one model instance per switch). -/
-def main : IO UInt32 := MpfVerif.runDriver MpfVerif.Switch.driverStep []
+/-! Driver of the C03 models (switch controller, one instance per switch; Switch device events, one instance per switch). -/
+def main : IO UInt32 := MpfVerif.runDriver MpfVerif.Switch.driverStep {}
